@@ -1,4 +1,4 @@
-"""unit rules: detail::rule<RequiresContext, F, L, R...> -- the DSL object a grammar rule is: three constructors (R17) and the
+"""unit rules: detail::rule<RequiresContext, F, L, R...> -- the DSL object a grammar rule is: three constructors (R19) and the
 operators that attach a precedence ([n]) or a functor (>=, >>=), plus the accessors the parser reads them back through.
 R13: the functor, the left side and the right-side tuple are opaque values (ghost ids); RequiresContext is a ghost field."""
 import os, sys, re
@@ -15,7 +15,7 @@ def F(name, header, csig, rules=(), **kw):
     fns.append(Fn(name=name, header=header, csig=csig, scope=RULE, rules=list(rules), **kw))
 
 
-MEMB = Call(r'VX_INIT__(\w+)', 'self->{m1} = ({args})', name='R17:member initializer m(e)')
+MEMB = Call(r'VX_INIT__(\w+)', 'self->{m1} = ({args})', name='R19:member initializer m(e)')
 
 
 def member(n, min=1):
@@ -29,7 +29,7 @@ def _mk(m, parts):
     return '{ struct rule vx_r; rule__ctor%d(&vx_r, %s); vx_r.requires_context = %s; return vx_r; }' % (len(parts), ', '.join(parts), ctx)
 
 
-MK = Call(r'return rule<(\w+), [^;(]*>', _mk, name='R17:return rule<Ctx, ...>(args) -> constructor by arity')
+MK = Call(r'return rule<(\w+), [^;(]*>', _mk, name='R19:return rule<Ctx, ...>(args) -> constructor by arity')
 SIG = 'struct rule* self'
 F('rule__ctor2', r'constexpr rule\(L l, std::tuple<R\.\.\.> r\)', 'void rule__ctor2(struct rule* self, vx_val l, vx_val r)', [MEMB], ctor=True)
 F('rule__ctor3', r'constexpr rule\(F1&& f, L l, std::tuple<R\.\.\.> r\)', 'void rule__ctor3(struct rule* self, vx_val f, vx_val l, vx_val r)', [MEMB], ctor=True)
